@@ -286,6 +286,17 @@ def run(ctx):
                                 g_terms.append("(%s, %s, %s, %s, %s, %s)" % (input_term(c, False), "true" if rows == n and not c.get("warp") else "false", coo_term(A["graph"]),
                                                                            coo_term(graphs["firstk"]), coo_term(graphs["ord"]), coo_term(graphs["exact"])))
                                 g_meta.append(describe(c, X))
+    # tiny data sets, n_samples <= n_neighbors (fit truncates n_neighbors to n - 1, the validation does not): tables with fewer than
+    # n_neighbors columns are unusable whatever n is -- ignored with the warning, result = ordinary fit (oracle only: the model's grid has k < n)
+    for n, k in ((6, 15), (10, 15), (10, 12), (15, 15)):
+        X, idx, dist = make_data(rng, npr, n, n - 4)
+        for cols in sorted({n - 1, n, min(k - 1, n)}):
+            for force in (False, True):
+                c = dict(n=n, k=k, cols=cols, rows=n, force=force, tuple="2", dtype="float32", provided=True, unique=False,
+                         idx_array=True, dist_array=True, same_shape=True, has_index=False, warp=False)
+                A, graphs = run_case(ctx, c, X, idx, dist, index_obj, thr, cache)
+                ctx.tag((n, k, cols, n, force, "tiny"), tags_of(c) + ["n_le_n_neighbors"])
+                ctx.count("n=%d" % n)
     # no tables at all
     for n, k, force in ((12, 3, False), (30, 5, True), (60, 8, False)):
         X, idx, dist = make_data(rng, npr, n, 8)
